@@ -1,4 +1,6 @@
 import Clikit.Lemmas.Tokenizer
+import Clikit.Model.Lines
+import Clikit.Props.C05
 /-!
 # C08 - splitting a command string never fails and inverts shell-style quoting
 
@@ -260,6 +262,72 @@ theorem option_tokens_tail_irrelevant (ts post : List Str) :
     optionTokens (optionTokens ts ++ ['-', '-'] :: post) = optionTokens ts :=
   option_tokens_cut _ post (option_tokens_prefix ts).1
 
+/-! ## the two forms through ONE parser object
+
+`Model/Lines.lean`: a sequence of command lines, each a command string or an argv list, issued to one
+`DefaultArgsParser` object (`Config.set_args_parser` shares one object between all parses of a command).  The
+parser reads the tokens only and decides where the options end anew for every line, so the form of a line and
+everything the object parsed before - in particular a `--` in an earlier line - are invisible. -/
+
+section Forms
+open Clikit.Parser Clikit.Lines
+
+/-- Every line yields raw args, except the argv list without a script name (`ArgvArgs([])`). -/
+theorem line_raw_total (l : Line) (h : l ≠ .argv []) : ∃ a, l.raw = .ok a := by
+  cases l with
+  | str s =>
+    obtain ⟨ts, hts⟩ := tokenize_total s
+    exact ⟨⟨none, ts, optionTokens ts⟩, by simp only [Line.raw, stringArgs_eq, hts]⟩
+  | argv a =>
+    cases a with
+    | nil => exact absurd rfl h
+    | cons script ts => exact ⟨_, rfl⟩
+
+/-- **String form = argv form for the parser, on any two parser objects**: the command string on an object that
+holds `σ` and the argv list of its tokens on an object that holds `σ'` are parsed to the same result - the fresh
+parse of the tokens. -/
+theorem string_argv_same_parse (σ σ' : St) (cv : Conv) (f : Fmt) (lenient : Bool) (s script : Str) :
+    ∃ ts a b, tokenize s = .ok ts ∧ Line.raw (.str s) = .ok a ∧ Line.raw (.argv (script :: ts)) = .ok b ∧
+      (parseFrom σ cv f lenient a.tokens).1 = parse cv f lenient ts ∧
+      (parseFrom σ' cv f lenient b.tokens).1 = parse cv f lenient ts := by
+  obtain ⟨ts, a, b, h, h1, h2, h3, h4, _⟩ := string_argv_same_total s script
+  refine ⟨ts, a, b, h, h1, h2, ?_, ?_⟩
+  · rw [h3]; exact Props.C05.parseFrom_result _ _ _ _ _
+  · rw [h4]; exact Props.C05.parseFrom_result _ _ _ _ _
+
+/-- **Histories of lines on one parser object**: whatever the object holds and whatever lines - in either form,
+with or without `--` - it parsed before, every line gets what a fresh parser gives for its tokens. -/
+theorem line_history_fresh (σ : St) (rs : List LReq) : lineHistory σ rs = rs.map freshOut := by
+  induction rs generalizing σ with
+  | nil => rfl
+  | cons r rs ih =>
+    simp only [lineHistory, List.map_cons, freshOut]
+    cases h : r.line.raw with
+    | error e => simp only [ih]
+    | ok a =>
+      simp only [ih]
+      rw [Props.C05.parseFrom_result]
+
+/-- A line after any earlier lines (e.g. lines containing `--`) on the same object: its outcome is the fresh one. -/
+theorem earlier_lines_inert (σ : St) (pre : List LReq) (r : LReq) :
+    lineHistory σ (pre ++ [r]) = lineHistory σ pre ++ [freshOut r] := by
+  simp only [line_history_fresh, List.map_append, List.map_cons, List.map_nil]
+
+/-- Two histories whose lines stand for the same tokens (same tables, format and mode), in whatever forms, give
+the same parses from any two start states: the form of a line is invisible to the parser. -/
+theorem line_history_form_irrelevant (σ σ' : St) (rs rs' : List LReq)
+    (h : rs.map freshOut = rs'.map freshOut) :
+    lineHistory σ rs = lineHistory σ' rs' := by
+  rw [line_history_fresh, line_history_fresh, h]
+
+/-- the string form and the argv form of the same tokens are the same request -/
+theorem freshOut_forms (cv : Conv) (f : Fmt) (lenient : Bool) (s script : Str) (ts : List Str)
+    (h : tokenize s = .ok ts) :
+    (freshOut ⟨cv, f, lenient, .str s⟩).2 = (freshOut ⟨cv, f, lenient, .argv (script :: ts)⟩).2 := by
+  simp only [freshOut, Line.raw, stringArgs_eq, h, argvArgs]
+
+end Forms
+
 /-! ## non-vacuity -/
 
 /-- `a 'b c'  "d\"e"` → `a`, `b c`, `d"e` (computed by the model) -/
@@ -336,5 +404,29 @@ example : optionTokens [['x'], ['-', 'q'], ['-']] = [['x'], ['-', 'q'], ['-']] :
 
 example : ['-', 'v'] ∉ optionTokens ([['x'], ['-', 'q']] ++ ['-', '-'] :: [['-', 'v']]) :=
   option_token_after_dashes _ _ _ (by decide) (by decide)
+
+/-! the two forms on one parser object: `-- --foo` (a command string; `--foo` is an argument there) and then the argv
+list `p --foo` on the SAME object, which held other values before: the second line still sets the option -/
+section
+open Clikit.Parser Clikit.Lines Clikit.Props.C05
+
+example : lineHistory dirty [⟨noConv, fooFmt, false, .str "-- --foo".toList⟩,
+                             ⟨noConv, fooFmt, false, .argv ["p".toList, "--foo".toList]⟩]
+    = [freshOut ⟨noConv, fooFmt, false, .str "-- --foo".toList⟩,
+       freshOut ⟨noConv, fooFmt, false, .argv ["p".toList, "--foo".toList]⟩] :=
+  line_history_fresh _ _
+
+example : (freshOut ⟨noConv, fooFmt, false, .str "-- --foo".toList⟩).2
+    = some (.ok { args := [("a".toList, .scalar (.str "--foo".toList))], opts := [] }) := by decide
+
+example : (freshOut ⟨noConv, fooFmt, false, .argv ["p".toList, "--foo".toList]⟩).2
+    = some (.ok { args := [], opts := [("foo".toList, .scalar (.bool true))] }) := by decide
+
+example : (freshOut ⟨noConv, fooFmt, false, .str "'--foo'".toList⟩).2
+    = (freshOut ⟨noConv, fooFmt, false, .argv ["p".toList, "--foo".toList]⟩).2 :=
+  freshOut_forms _ _ _ _ _ _ (by decide)
+
+example : ∃ a, Line.raw (.str "a 'b".toList) = .ok a := line_raw_total _ (by simp)
+end
 
 end Clikit.Props.C08
